@@ -18,12 +18,15 @@ CtxClauses(I, ctx, k) ==
          <<"context(" \o kk \o ")-bonds",
              IF k = 0 THEN SubEdgeSet(S) = RCEdges(I) ELSE SubEdgeSet(S) = InducedEdges(I, ContextNodes(I, k))>> >>
 
+(* the atom's own element / charge labels (next to the (before, after) pair) are copied from the ITS as well *)
+TopLabelsOK(I, S) == \A k \in DOMAIN S.nodes : S.top[k] = I.top[S.nodes[k]]
+
 Verdict(c) ==
    LET I == c.its IN
    AllFails(
    << <<"centre-bonds-are-not-exactly-the-changed-bonds", SubEdgeSet(c.rc) = RCEdges(I) /\ SubNoDup(c.rc)>>,
       <<"centre-atoms-are-not-exactly-the-incident-atoms", SubNodes(c.rc) = RCNodes(I)>>,
-      <<"centre-labels-differ-from-the-ITS", SubLabelsOK(I, c.rc) /\ SubEdgeAttrsOK(I, c.rc)>>,
+      <<"centre-labels-differ-from-the-ITS", SubLabelsOK(I, c.rc) /\ SubEdgeAttrsOK(I, c.rc) /\ TopLabelsOK(I, c.rc)>>,
       <<"centre-of-centre-differs", SameSub(c.rc2, c.rc)>>,
       <<"renumbered-reaction-has-a-different-centre", SameSub(c.ren, c.rc)>> >>
    \o CtxClauses(I, c.ctx, 0) \o CtxClauses(I, c.ctx, 1) \o CtxClauses(I, c.ctx, 2) \o CtxClauses(I, c.ctx, 3)
